@@ -3,6 +3,16 @@ families = correspondence families (harness `gen <fam>`) with quick-tier op coun
 monitor = number of monitor cases in the quick tier (harness `monitor <id>`)."""
 
 PROPS = {
+    "C09": {
+        "families": {"oracle": 18000, "health": 8000},
+        "tagged_monitors": {"ORA": 20000},
+        "assumptions": [
+            "modelled adapters: Fixed, Pyth push, Switchboard pull; the staked / Kamino / Drift / Solend variants load the same adapters and re-scale price and confidence by an exchange rate (their arithmetic is C20's model and family); their account-binding checks (reserve / spot-market / stake-pool keys) are read, not modelled",
+            "Pyth's own get_price_no_older_than_with_custom_verification_level and the PriceUpdateV2 / PullFeedAccountData byte layouts are the real SDK crates, executed in the harness; the model carries their decision (verification level, publish_time + max_age >= now)",
+            "off mainnet the owner check also accepts the mock Pyth program id (cfg live!); the harness builds the program without the mainnet feature, both ids are treated as 'owner ok'",
+            "which price type and bias each requirement uses (initial/equity: time-weighted; maintenance: real-time; assets low, liabilities high) is part of the valuation model diffed by the `health` family through the real pulse_health instruction",
+        ],
+    },
     "C10": {
         "families": {"tx": 12000},
         "br_monitor": 3000,
@@ -146,6 +156,12 @@ _NOTE = ("Trusted: Lean kernel; axioms propext/Classical.choice/Quot.sound only 
          "and by diffing model vs real code on generated operations. ")
 
 MANIFEST_TEXT = {
+    "C09": {
+        "text": "Machine-checked Lean 4 theorems on the oracle/valuation model: pyth_loaded_iff / swb_loaded_iff / fixed_loaded_iff (a feed loads exactly when the account is the configured one, owned by the expected program, a PriceUpdateV2 / pull feed, fully verified and not older than the bank's maximum age; otherwise a specific error; default age 60 s), pyth_fresh_iff (staleness boundary exact); confGate_spec + biased_price_spec + low_le_price_le_high (a biased price is the reported price of the same type minus/plus a confidence interval that is >= 0 and at most 5% of the price, the price is >= 0, low <= price <= high, low >= 0; intervals above max-confidence x price fail); failed_oracle_debt_fails, failed_oracle_collateral_worth_nothing, failed_oracle_collateral_blocks_assessment and bad_debt_oracle_blocks_everything (if the oracle of any position carrying a debt fails to load, the initial check, the liquidation pre-condition and the bankruptcy assessment ALL fail, for every portfolio: induction over the position list); by decide over regenerated skeletons: classic liquidation checks asset and liability price > 0 before any balance moves and the four withdraw handlers check price > 0 before their operation. `oracle` family: the REAL try_from_bank + get_price_of_type on account bytes built like on-chain Pyth/Switchboard accounts (prices, exponents, confidences, std-devs across their integer ranges, publish times at the staleness boundary, wrong key/owner/discriminator/verification) 18k/run; `health` family: the real risk engine through pulse_health; ORA monitor: exact big-integer predicates on everything the real adapters accept. One genuine defect found and repaired (fix: 70e4be75, Switchboard from_num wrap).",
+        "design_ref": "DESIGN.md §4 C09",
+        "note": _NOTE + "One genuine defect found by this check was repaired (fix: 70e4be75).",
+        "technique": "Lean 4 proof: iff-characterisations of the loaders + arithmetic spec of the confidence gate/bias + list induction for failure propagation + decide over source-generated skeletons; correspondence check on real adapters and on the real risk engine via pulse_health; exact-arithmetic acceptance monitor",
+    },
     "C10": {
         "text": "Machine-checked Lean 4 theorems on the transaction-shape model: valid_spec / bracket_shape (an accepted validate_instructions means: the running start is the unique start instruction of the transaction, everything before it is compute-budget or whitelisted, the LAST instruction is this program's matching end, only allowed programs appear and of this program only start/end/record-init/withdraw/repay (+integration withdraws), at top level, start not last); over EVERY transaction and EVERY behaviour of the non-structural checks: receivership_never_survives (no account is in receivership after a successful transaction), bracket_closed_by_matching_end (the last instruction is the matching end FOR THE SAME ACCOUNT and it executed), one_receivership_at_a_time; by decide over tables regenerated from the source: only start_receivership sets and only end_receivership clears the flag (scan of every function), account transfer refuses accounts in receivership / flash loan before copying the flag word, end_receivership has no early success return and clears flag and receiver after the health comparison, start evaluates the maintenance-health precondition before setting the flag, constraints (flag clear at start / set at end, receiver and risk-admin signatures). `tx` family: the REAL validate_instructions on generated transaction shapes with the real sysvar serialization (12k/run). Bracket monitor: real multi-instruction transactions through real dispatch (brackets + mutations, empty brackets, wrong ends, forbidden instructions, foreign programs): flags never survive, committed brackets have the demanded shape, start only when unhealthy, maintenance health no worse and not positive, premium <= 5%, rejected transactions leave the store unchanged.",
         "design_ref": "DESIGN.md §4 C10",
